@@ -162,9 +162,27 @@ def check_dead(case):
 # ---------------------------------------------------------------------------------------------
 # (2) rewrites
 
+# leaves with an outcome of their own (most of them fail): whatever shortcut an implementation takes for "simple" expressions in
+# delayed positions, moving such a leaf into a local / argument / element / field must not change what happens
+_N = lambda t: {"k": "number", "text": t}
+_S = lambda v: {"k": "string", "v": v}
+SPECIAL_LEAVES = [
+    _N("1e400"), _N("1e309"), _N("17976931348623158e292"), {"k": "unary", "op": "Minus", "e": _N("1e400")}, _N("1e308"), _N("5e-324"), _N("1e-400"),
+    {"k": "error", "e": _S("E")}, {"k": "error", "e": {"k": "array", "items": [_N("1")]}},
+    {"k": "binary", "op": "Div", "l": _N("1"), "r": _N("0")}, {"k": "binary", "op": "Rem", "l": _N("1"), "r": _N("0")},
+    {"k": "binary", "op": "Mul", "l": _N("1e308"), "r": _N("10")}, {"k": "binary", "op": "Sub", "l": _S("a"), "r": _N("1")},
+    {"k": "index", "e": {"k": "array", "items": []}, "index": _N("0")}, {"k": "field", "name": "a", "e": {"k": "object", "inside": {"k": "members", "members": []}}},
+    {"k": "field", "name": "f", "e": {"k": "null"}}, {"k": "assert", "assert": {"cond": {"k": "bool", "v": False}, "msg": _S("A")}, "body": _N("1")},
+    {"k": "unary", "op": "LogicNot", "e": _N("1")}, {"k": "binary", "op": "LogicAnd", "l": {"k": "bool", "v": True}, "r": _N("1")},
+    {"k": "string", "v": ""}, {"k": "null"}, {"k": "bool", "v": True}, {"k": "array", "items": []}, {"k": "object", "inside": {"k": "members", "members": []}},
+    {"k": "func", "params": [{"name": "rw_p", "default": None}], "body": {"k": "ident", "name": "rw_p"}},
+]
+
+
 @st.composite
 def rewrite_case(draw):
     c = draw(G.programs(max_depth=draw(st.sampled_from([3, 4]))))
+    c["leaf"] = [draw(st.integers(0, len(SPECIAL_LEAVES) - 1)), draw(st.integers(0, 10_000)), draw(st.booleans())] if draw(st.integers(0, 2)) == 0 else None
     c["trace_sels"] = draw(st.lists(st.integers(0, 10_000), min_size=1, max_size=4))
     c["rewrites"] = draw(st.lists(st.tuples(st.sampled_from(["local", "identity", "array", "object", "paren", "if-true", "thunk-twice"]), st.integers(0, 10_000)), min_size=1, max_size=3))
     c["choices"] = draw(st.lists(st.integers(0, 1000), min_size=6, max_size=20))
@@ -204,7 +222,20 @@ def apply_rewrite(tree, kind, sel, uid=0):
 
 
 def check_rewrite(case):
-    base = add_traces(case["tree"], case["trace_sels"])
+    tree = case["tree"]
+    first_sel = None
+    if case.get("leaf"):
+        li, lsel, at_leaf = case["leaf"]
+        tree = copy.deepcopy(tree)
+        wrapper = {"k": "paren", "e": tree}
+        pos = positions(wrapper)
+        c, k, _, _ = pos[lsel % len(pos)]
+        c[k] = copy.deepcopy(SPECIAL_LEAVES[li])
+        tree = wrapper["e"]
+        if at_leaf:
+            # the first rewrite is applied to the special leaf itself (positions are listed in a fixed order)
+            first_sel = next(i for i, (cc, kk, _, _) in enumerate(positions({"k": "paren", "e": tree})) if cc[kk] == SPECIAL_LEAVES[li] and i >= 0)
+    base = add_traces(tree, [] if first_sel is not None else case["trace_sels"])
     t0, r0 = run(base, case["choices"])
     o0, tr0 = outcome(r0)
     if o0[0] == "fuel":
@@ -213,6 +244,8 @@ def check_rewrite(case):
     depth = 0
     kinds = []
     for uid, (kind, sel) in enumerate(case["rewrites"]):
+        if uid == 0 and first_sel is not None:
+            sel = first_sel
         new, d, io = apply_rewrite(new, kind, sel, uid)
         depth = max(depth, d)
         kinds.append(kind)
@@ -226,7 +259,7 @@ def check_rewrite(case):
             raise Violation("rewrite-changes-trace-count", f"rewrites {kinds} changed how often parts run: {sorted(tr0)} -> {sorted(tr1)}: {t1[:500]!r}")
     elif tr1 != tr0:
         raise Violation("rewrite-changes-traces:" + kinds[0], f"rewrites {kinds} changed the trace sequence {tr0} -> {tr1}: {t0[:300]!r} -> {t1[:400]!r}")
-    return {"nontrivial": depth >= 2, "labels": kinds[:2] + [o0[0]], "sample": t1[:300]}
+    return {"nontrivial": depth >= 2 or first_sel is not None, "labels": kinds[:2] + [o0[0]] + (["special-leaf"] if case.get("leaf") else []), "sample": t1[:300]}
 
 
 # ---------------------------------------------------------------------------------------------
